@@ -41,6 +41,19 @@ def run(ctx, res):
          "reserved": [0, 40, 41, 100], "filler": 0xE5, "tableTail": 0xFF, "recPad": 0, "byte0": 0}
     one_image(ctx, res, "fixed", "fd", [a], blobs, True)
     res.sample({"files": ["LIVE.BAS chain [7,3,150] lastSectors 1 lastBytes 0", "Z. chain [1] 8 sectors 255 bytes"], "deleted_first_block": [255, 200]})
+    # fixed: one file owning all 157 allocatable blocks (shuffled), and a side split 79 + 78
+    allb = [b for b in range(160) if b not in (0, 40, 41)]
+    sh = allb[:]
+    rng.shuffle(sh)
+    big = {"files": [{"slot": 111, "name": b"WHOLE   ", "ext": b"DAT", "kind": 1, "flag": 0, "chain": sh, "lastSectors": 5, "lastBytes": 77,
+                      "content": bytes(range(256)) * ((255 * (8 * 156 + 4) + 77) // 256) + bytes(range((255 * (8 * 156 + 4) + 77) % 256))}],
+           "deleted": [], "reserved": [0, 40, 41], "filler": 0xE5, "tableTail": 0, "recPad": 0xFF, "byte0": 0}
+    sh2 = allb[:]
+    rng.shuffle(sh2)
+    two = {"files": [{"slot": 0, "name": b"HALF1   ", "ext": b"BIN", "kind": 2, "flag": 0, "chain": sh2[:79], "lastSectors": 8, "lastBytes": 255, "content": b"\x11" * (255 * 8 * 79)},
+                     {"slot": 56, "name": b"HALF2   ", "ext": b"BIN", "kind": 2, "flag": 0, "chain": sh2[79:], "lastSectors": 1, "lastBytes": 1, "content": b"\x22" * (255 * 8 * 77 + 1)}],
+           "deleted": [], "reserved": [0, 40, 41], "filler": 0, "tableTail": 0xFF, "recPad": 0, "byte0": 0}
+    one_image(ctx, res, "fixed", "fd", [big, two], blobs, True)
     for i in range(ctx.n(24, 500)):
         fl = rng.choice(["fd", "fd", "fd", "sd"])
         n = 4 if fl == "sd" else rng.choice([1, 2, 4])
